@@ -38,6 +38,7 @@ fn main() {
         "C14" => props_coll::c14(seed, n),
         "C11" => props_coll::c11(seed, n),
         "C13" => props_plan::c13(seed, n),
+        "C12" => props_plan::c12(seed, n),
         "C19" => props_file::c19(seed, n),
         "C20" => props_file::c20(seed, n),
         "consts" => props_kin::consts(),
